@@ -2,6 +2,12 @@
 
 
 def classify(case):
+    # scenarios of the `cleanup` driver are evaluated by Blocked.cleanup_monitor_fail only, which is true of exactly one
+    # class: a cleanup goroutine exists while the update-gadget-assets handler executes. Violations among do/undo
+    # handlers are evaluated by the other monitors (drivers blocked / run, same scenarios included) and are never keyed.
+    i = case.get("input") or {}
+    if isinstance(i, dict) and i.get("mode") == "cleanup":
+        return "cleanup-starts-next-to-gadget-update"
     return None
 
 
@@ -19,6 +25,10 @@ SPEC = dict(
              n=dict(quick=60, thorough=1500), timeout=dict(quick=300, thorough=1800),
              ev=dict(_EV, case_type="list Blocked.case", mismatch="(existsb Blocked.mismatch)",
                      monitor="(existsb Blocked.monitor_fail)")),
+        dict(name="cleanup", kind="test", pkg="./overlord/state", run="TestVerifC07Cleanup",
+             n=dict(quick=30, thorough=600), timeout=dict(quick=300, thorough=1800),
+             ev=dict(_EV, case_type="list Blocked.case", mismatch="(existsb Blocked.mismatch)",
+                     monitor="(existsb Blocked.cleanup_monitor_fail)")),
     ],
     classify=classify,
     rule=("one real state.TaskRunner per world with the real hookstate, snapstate, ifacestate and devicestate managers "
@@ -30,6 +40,10 @@ SPEC = dict(
           "cleanup goroutines occur; all kinds re-registered with stub handlers that block until released; a generated script "
           "alternates TaskRunner.Ensure with completions in generated order. Recorded per Ensure: tombs before (cleanup flag), "
           "handler tombs after, runnable tasks left idle; and the set of executing handlers at every handler start. "
+          "After every Ensure also all tombs with their cleanup flag. Two scripted scenarios reproduce a cleanup goroutine next to "
+          "an executing update-gadget-assets handler (same pass; later pass after Change.Abort of a change with a done "
+          "copy-snap-data task) - they run in `run` (handler monitor, quiet) and in `cleanup` (cleanup monitor, known finding). "
+          "cleanup: the scripted scenarios plus random scenarios that always contain a cleanup-capable change. "
           "Non-trivial = a predicate returned true (blocked) / a pass left a runnable task idle (run)."),
     exhaustive=dict(quick=True, thorough=True),
     trusted_base=[
@@ -40,7 +54,7 @@ SPEC = dict(
     ],
     assumptions=[
         "PARTIAL w.r.t. the Go runtime: the theorems are about r.tombs (tasks with a do/undo goroutine). That this is the set of executing handlers at every instant relies on the runner's locking (Ensure holds r.mu and the state lock during the whole pass; a finishing goroutine deletes its tomb under both); modelled by atomic EEnsure / EDone events, observed by the driver's handler-start snapshots, not verified",
-        "cleanup handlers (TaskRunner.clean) are outside the exclusion: clean() neither consults the predicates nor adds to `running`, so a cleanup can run next to update-gadget-assets (C07_cleanups_not_serialized); the kinds with cleanups (copy-snap-data, prepare-remodeling, set-model, create/finalize-recovery-system) are none of the serialized kinds",
+        "KNOWN FINDING cleanup-starts-next-to-gadget-update: TaskRunner.clean neither consults the blocked predicates nor adds to `running`, so a cleanup goroutine can start in the same pass as, or while, update-gadget-assets executes (C07_gadget_alone_refuted_by_cleanup, reproduced on the real runner on every run). C07_gadget_alone is proved for histories without cleanups; among do/undo handlers the update is always alone (C07_gadget_alone_among_handlers_partial); it is never started while any tomb exists (C07_gadget_waits_for_running). The driver uses a stub cleanup registered with AddCleanup for the real kind copy-snap-data; real kinds with cleanups: copy-snap-data, prepare-remodeling, set-model, create-recovery-system, finalize-recovery-system",
         "a run-hook task whose hook-setup cannot be read is not serialized by the hook predicate (Get error => not blocked / ignored), as in the code",
         "which tasks are candidates in a pass (status, wait/halt dependencies, scheduled time) is an arbitrary input of the model (any list of candidates in any order), not modelled",
         "TaskRunner.SetBlocked (replaces all predicates) is not used by production code and not modelled",
